@@ -4,17 +4,19 @@ import ast
 from pv import propkit as K, schema, source, native
 from pv.core import PropResult, Ob
 
-LEVEL = 'other'
+LEVEL = 'proof'
 EXPLANATION = ('K1: ExpressionTokenTranslator._group (the regrouping of the right-nested operand chain; three nested loops, a '
                'dictionary of waiting levels) returns, for every chain, the precedence tree of the chain - every operand and '
                'operator kept in order, at every operation the left root not weaker and the right root strictly stronger than the '
                'operation (so one level groups from the left, * / bind tighter than + - than & than comparisons) - given the seven '
-               'shapes of an ExpressionToken and the level table of the eleven operators (K2, exhaustive). Proved further: the operator table (each Excel operator is emitted as the Python operator / helper of the same '
-               'meaning, K-S on the real translators), in-order emission with re-emitted brackets for the arithmetic '
-               'fragment + - * / ( ), CPython groups a x b y c as the statement\'s table does for all 16 pairs (K2), a blank '
-               'cell is the int 0 in arithmetic (K3 on the extracted EmptyCell), x% is x/100 normalised. The full operator '
-               'grammar (unary sign, %, &, comparisons mixed with arithmetic) is an induction over two grammars and is decided '
-               'only by bounded-exhaustive enumeration against a spec evaluator; literal -> double is bounded.')
+               'shapes of an ExpressionToken and the level table of the eleven operators (K2, exhaustive). K-S on the real '
+               'translators: each Excel operator is emitted as the Python operator / helper of the same meaning, operands in order, '
+               'brackets re-emitted, x% as x/100 normalised, a sign directly before its operand; PARAM (K3): translators only '
+               'concatenate child translations; K2: CPython groups a x b y c as the statement\'s table does for all 16 pairs of '
+               '+ - * /; K3: a blank cell is the int 0 in arithmetic. NOT proved, decided by the bounded enumeration against a spec '
+               'evaluator only: that the text emitted for a tree (_translate_tree: function calls for & and comparisons, flat text '
+               'for arithmetic) means the tree for every tree (only the K-S samples and the exhaustive enumeration up to 7 tokens), '
+               'which signs a leaf collects, and the literal -> double conversion.')
 P1, P2, P3 = 900001, 900002, 900003
 TABLE = [(f'op.{n}', f'={P1}{x}{P2}', e, 'operator table') for n, x, e in (
     ('plus', '+', f'{P1} + {P2}'), ('minus', '-', f'{P1} - {P2}'), ('times', '*', f'{P1} * {P2}'), ('divide', '/', f'{P1} / {P2}'),
@@ -33,6 +35,16 @@ TABLE += [
     ('arith.brackets.right_div', f'={P1}/({P2}*{P3})', f'{P1} / ({P2} * {P3})', 'a bracketed product after / keeps its brackets'),
     ('arith.brackets.right_sub', f'={P1}-({P2}-{P3})', f'{P1} - ({P2} - {P3})', ''),
     ('arith.brackets.nested', f'=(({P1}+{P2}))*{P3}', f'({P1} + {P2}) * {P3}', ''),
+    ('sign.before_operand', f'=-{P1}-{P2}', f'-{P1} - {P2}', 'a sign applies to the operand that follows it, not to the rest'),
+    ('sign.after_operator', f'={P1}*-{P2}+{P3}', f'{P1} * -{P2} + {P3}', ''),
+    ('mixed.arith_cmp', f'={P1}-{P2}={P3}', f"self._compare('==', {P1} - {P2}, {P3})", 'arithmetic binds tighter than a comparison'),
+    ('mixed.amp_cmp', f'={P1}&{P2}<{P3}',
+     f"self._compare('<', self._excel_value_to_string({P1}) + self._excel_value_to_string({P2}), {P3})", '& binds tighter than a comparison'),
+    ('mixed.mul_amp', f'={P1}*{P2}&{P3}', f'self._excel_value_to_string({P1} * {P2}) + self._excel_value_to_string({P3})',
+     'arithmetic binds tighter than &'),
+    ('mixed.cmp_cmp', f'={P1}<>{P2}={P3}', f"self._compare('==', self._compare('!=', {P1}, {P2}), {P3})", 'comparisons group from the left'),
+    ('percent.in_product', f'={P1}/{P2}%*{P3}',
+     f'{P1} / self._normalize_float_number({P2} / 100) * {P3}', 'a percentage is an operand; what follows it is not wrapped'),
     ('percent.emit', f'={P1}%', f'self._normalize_float_number({P1} / 100)', 'x% is x/100 to 15 significant digits'),
     ('operand.cell', '=A1+B2', 'CELL(0, 0, 0) + CELL(0, 1, 1)', 'operands from the workbook go through _cell_preprocessor '
      '(so overrides are seen)'),
@@ -115,9 +127,11 @@ def run(ctx):
     K.monitor_if_present(res, ctx, 'mon_c01', timeout=3000)
     res.trusted_base += ['L-SUBST', 'L-OPG (Floyd 1963): in an operator-precedence grammar the parse tree of a token string is '
                          'determined by the precedence / associativity table', 'CPython ast']
-    res.assumptions += ['outside the arithmetic fragment the emission is neither in-order nor delimited (unary sign, %, & and '
-                        'comparisons wrap what follows): decided by the bounded enumeration only; open known findings list '
-                        'the inversion types present on the unchanged tree']
+    res.assumptions += ['the chain model of _group (token shapes, operator carriers, levels) is tied to the real grammar data by K2 '
+                        'obligations; that CompositeBaseToken.get only builds tokens of these shapes is C05 shape_is_a_token_set',
+                        '_translate_tree (tree -> text) is covered by K-S samples, PARAM and the bounded enumeration, not by a '
+                        'contract: text emission is outside the value model of the engine',
+                        'the signs collected for an operand are not part of the proved in-order claim (bounded)']
     return res
 
 
